@@ -38,6 +38,8 @@ ASSUMPTIONS = [
     "HarfBuzz 12.1's CFF interpreter is correct; it reports float32 coordinates, hence tolerance 1e-3 (+2.5e-7*|coordinate|) for fractional operands",
     "hmtx advances are integers: a generated fractional charstring width is compared through the charstring, and through otRound in hmtx-based legs",
     "corpus charstrings that ref_t2 itself finds malformed are only required not to get new problems",
+    "conversions are driven the way their command lines do (TTFont opened with recalcBBoxes=False) and glyphs are addressed by index, because convertCFF2ToCFF renames the charset but not the TTFont glyph order (finding C in sensitivity/C12.md)",
+    "classes excluded by construction after findings on the unchanged tree (all counted under excluded_by_construction, details in sensitivity/C12.md): subr whose only non-hint operator is its final endchar; call to an empty subr with pending operands; 'w endchar' glyph with the width inside a subr; first stack-clearing operator with 48 operands; CFF2->CFF on a freshly loaded font that uses local subrs",
 ]
 WALL_BUDGET = {"quick": 1500, "thorough": 4 * 3600}
 
